@@ -535,7 +535,7 @@ class World:
                 newdest[k] = parts[0] if self.kind == "single" else b"|".join(parts)
                 outcome_class[k] = "succeeded"
             elif all(r is not None and r[2] for r in recs):
-                outcome_class[k] = "failed-after-writing-the-file"
+                outcome_class[k] = "failed-after-writing-the-file" if self.decl == "file" else "failed-after-printing-the-result"
             elif all(r is not None and r[1] for r in recs):
                 outcome_class[k] = "return-file-missing" if self.decl == "file" else "empty-result"
             else:
@@ -675,12 +675,12 @@ with dst.writing(): dst["only-in-destination"] = b"x"
 jobmap(D().calc, src, dst, cache_dir="cache", scratch_dir="scratch", n_workers=1)
 # KeyError: b'only-in-destination'  (job.py:551 `all_keys ^ skip_keys` puts destination-only keys into to_be_done)
 """,
-    "jobmap[single]:destination:item-stored-although-failed-after-writing-the-file": """\
+    "jobmap[single,return_files=tuple]:destination:item-stored-although-failed-after-writing-the-file": """\
 jobmap(D().calc, src, dst, cache_dir="cache", scratch_dir="scratch", n_workers=1, kwargs={"fail": True})
 with dst.reading(): print(dict(dst.items()))
 # {'k0': b'data\\n'} although the second command of k0 exited 3; expected: {}  (job.py:664 processes <key>.out whatever its exit code)
 """,
-    "jobmap[vector]:destination:item-stored-although-failed-after-writing-the-file": """\
+    "jobmap[vector,return_files=tuple]:destination:item-stored-although-failed-after-writing-the-file": """\
 jobmap(D().calc_ens, ens, dst, cache_dir="cache", scratch_dir="scratch", n_workers=1, kwargs={"fail": True})
 with dst.reading(): print(dict(dst.items()))
 # {'k0': b'data\\n|data\\n'} although every conformer job failed; expected: {}  (job.py:679)
@@ -814,6 +814,7 @@ def run(ctx):
         "a cached output whose commands all exited 0 but whose requested file is missing (the runner exits 1 but stores exitcode 0) may or may not be re-executed: both accepted",
         "every conformer job of a vectorised item that is not validly cached is executed, also when a sibling conformer fails",
         "item-level failures and destination-only keys must not make jobmap raise",
+        "for a job declared without return files the result is what the named command prints; an empty stdout makes post-processing raise (no processed result), and such a run is a plain success for the cache (exit 0): it must not be executed again",
         "n_workers=1; the destination is a plain Collection[bytes] on the Ukv backend, the sources are a MoleculeLibrary / ConformerLibrary",
     ]
     parts = []
@@ -823,6 +824,12 @@ def run(ctx):
     if not ctx.thorough:
         parts += [(2, T, False, c) for c in chunk(configs("single", k2, single), nproc * 2)]
         parts += [(2, T, False, c) for c in chunk(configs("vector", k2, vec5), nproc * 3)]
+        # jobs declared without return files (result on stdout): the histories that reuse / invalidate the cache
+        noO = [p for p in single if p != ("O",)]
+        parts += [(2, T, False, c) for c in chunk(configs("single", k2, noO, "none"), nproc * 2)]
+        parts += [(2, T, False, c) for c in chunk(configs("vector", k2, [p for p in vec5 if "O" not in p], "none"), nproc * 3)]
+        parts += [(2, T, False, c) for c in chunk(configs("single", k2, [("S",), ("F",)], "empty"), nproc)]
+        ctx.bound["declarations"] = {"return_files=('res.txt',)": "all scripts", "return_files=None": "scripts S,F,FS,W; single + vectorised", "return_files=()": "scripts S,F; single"}
         ctx.bound.update({"items": 2, "runs": "1..2", "vector_plans": [list(p) for p in VEC5], "corrupt_kinds": T})
     else:
         CK = ["truncate", "empty", "garbage", "scalar"]
@@ -833,6 +840,13 @@ def run(ctx):
         parts += [(2, CK, False, x) for x in chunk(configs("vector", k2, {"k0": vec25, "k1": vec5}), nproc * 4)]
         parts += [(2, CK, False, x) for x in chunk(configs("single", k3, single), nproc * 4)]
         parts += [(2, T, False, x) for x in chunk(configs("vector", k3, vec5), nproc * 4)]
+        # jobs declared without return files (None: result on stdout; ())
+        parts += [(3, T, False, x) for x in chunk(configs("single", k2, single, "none"), nproc * 2)]
+        parts += [(2, CK, False, x) for x in chunk(configs("vector", k2, vec5, "none"), nproc * 4)]
+        parts += [(2, T, False, x) for x in chunk(configs("single", k2, single, "empty"), nproc * 2)]
+        parts += [(2, T, False, x) for x in chunk(configs("vector", k2, [("S", "S"), ("F", "S"), ("S", "W")], "empty"), nproc * 2)]
+        parts += [(2, T, True, x) for x in chunk(configs("single", k2, [("S",), ("F",)], "none"), 18)]
+        ctx.bound["declarations"] = "return_files=None: single 1..3 runs (5 scripts), vectorised 1..2 runs (5 plans, 4 corruption kinds); return_files=(): single (5 scripts) and vectorised (3 plans) 1..2 runs; real runner: single None-declared S/F 1..2 runs"
         # conformance: the same histories through the unmodified subprocess runner (_molli_run)
         parts += [(2, T, True, x) for x in chunk(configs("single", k2, single), 72)]
         parts += [(1, T, True, x) for x in chunk(configs("vector", k2, vec5), 36)]
